@@ -192,3 +192,22 @@ func VerifC10FilterReuse() {
 		(used.reSuffixMatch == nil) == (fresh.reSuffixMatch == nil), "a re-used filter keeps matching state of its previous use")
 	verifrt.Reach("end")
 }
+
+// VerifC10FilterCacheKey: the key under which the series ids selected by one predicate leaf are cached
+// (tagFilter.Marshal) identifies the leaf: measurement, tag key, tag value and the two flags can be read
+// back from it one after the other, so two different leaves never share a cache key - otherwise one
+// predicate would be answered with the ids of another.
+func VerifC10FilterCacheKey() {
+	max := 2 + verifrt.Tier()
+	f := &tagFilter{name: verifC10Bytes("name", 2), key: verifC10Bytes("key", max), value: verifC10Bytes("value", max),
+		isNegative: verifrt.Bool("neg"), isRegexp: verifrt.Bool("re")}
+	k := f.Marshal(nil)
+	tail, name, err := unmarshalTagValue(nil, k)
+	verifrt.Assert(err == nil && bytes.Equal(name, f.name), "the measurement cannot be read back from the cache key")
+	tail, key, err := unmarshalTagValue(nil, tail)
+	verifrt.Assert(err == nil && bytes.Equal(key, f.key), "the tag key cannot be read back from the cache key")
+	tail, value, err := unmarshalTagValue(nil, tail)
+	verifrt.Assert(err == nil && bytes.Equal(value, f.value), "the tag value cannot be read back from the cache key")
+	verifrt.Assert(len(tail) == 2 && (tail[0] == 1) == f.isNegative && (tail[1] == 1) == f.isRegexp && tail[0] <= 1 && tail[1] <= 1, "the flags cannot be read back from the cache key")
+	verifrt.Reach("end")
+}
